@@ -45,14 +45,8 @@ func (e *Env) evalConversion(call *ast.CallExpr, st *State) Value {
 			}
 		case *KeyV:
 			if isInternalKeyType(to) {
-				// raw bytes reinterpreted as an internal key: an unknown internal key
-				nv, facts := c.freshValue(to, "ikconv")
-				for _, f := range facts {
-					st.assume(f)
-				}
-				nik := nv.(*IKeyV)
-				nik.U.Nil = k.Nil
-				return nik
+				// raw bytes reinterpreted as an internal key: its parts are functions of the byte string
+				return c.asIKey(st, k)
 			}
 			return k
 		}
@@ -294,7 +288,7 @@ func (e *Env) evalAppend(call *ast.CallExpr, st *State) Value {
 		na := c.freshVar("app", SArr(c.idxSort(), lf.S))
 		// prefix preserved
 		i := Var(c.freshName("i"), c.idxSort())
-		st.assume(&Term{Op: "forall", Bound: []*Term{i}, Sort: SBool, Args: []*Term{
+		c.assumeDef(st, &Term{Op: "forall", Bound: []*Term{i}, Sort: SBool, Args: []*Term{
 			Implies(And(c.ile(res.Off, i), c.ilt(i, c.iadd(res.Off, s.Len))),
 				Eq(Select(na, i), Select(oldS, c.iadd(s.Off, c.isub(i, res.Off)))))},
 			Pats: [][]*Term{{Select(na, i)}}})
@@ -303,7 +297,7 @@ func (e *Env) evalAppend(call *ast.CallExpr, st *State) Value {
 			oldSrc := Select(mem, src.Base)
 			j := Var(c.freshName("i"), c.idxSort())
 			lo := c.iadd(res.Off, s.Len)
-			st.assume(&Term{Op: "forall", Bound: []*Term{j}, Sort: SBool, Args: []*Term{
+			c.assumeDef(st, &Term{Op: "forall", Bound: []*Term{j}, Sort: SBool, Args: []*Term{
 				Implies(And(c.ile(lo, j), c.ilt(j, c.iadd(lo, addN))),
 					Eq(Select(na, j), Select(oldSrc, c.iadd(src.Off, c.isub(j, lo)))))},
 				Pats: [][]*Term{{Select(na, j)}}})
@@ -314,7 +308,7 @@ func (e *Env) evalAppend(call *ast.CallExpr, st *State) Value {
 				c.walkLeaves(s.Elem, ev, c.memKey(s.Elem), func(path string, lt types.Type, leaf *Term) {
 					if path == lf.Path {
 						_ = kk
-						st.assume(Eq(Select(na, pos), leaf))
+						c.assumeDef(st, Eq(Select(na, pos), leaf))
 					}
 				})
 			}
@@ -322,7 +316,7 @@ func (e *Env) evalAppend(call *ast.CallExpr, st *State) Value {
 		// frame: in place, everything outside the appended range is unchanged
 		k := Var(c.freshName("i"), c.idxSort())
 		lo := c.iadd(res.Off, s.Len)
-		st.assume(&Term{Op: "forall", Bound: []*Term{k}, Sort: SBool, Args: []*Term{
+		c.assumeDef(st, &Term{Op: "forall", Bound: []*Term{k}, Sort: SBool, Args: []*Term{
 			Implies(And(inPlace, Not(And(c.ile(lo, k), c.ilt(k, c.iadd(lo, addN))))),
 				Eq(Select(na, k), Select(oldR, k)))},
 			Pats: [][]*Term{{Select(na, k)}}})
@@ -429,7 +423,22 @@ func (e *Env) evalCallWith(call *ast.CallExpr, st *State, args []Value) Value {
 		if ord, ok := e.C.callOrd[call.Lparen]; ok && e.C.Contract != nil && len(e.C.Contract.Ats) > 0 {
 			saved := e.C.specAt
 			e.C.specAt = call.End()
-			e.C.runAts(e, st, "call "+ord, nil)
+			// the results of the call are visible as result / ret0, ret1, ...
+			extra := map[string]TV{}
+			if tt, ok := e.Info.TypeOf(call).(*types.Tuple); ok {
+				if tv, isT := v.(*TupleV); isT {
+					for i := 0; i < tt.Len() && i < len(tv.Vs); i++ {
+						extra[fmt.Sprintf("ret%d", i)] = TV{tv.Vs[i], tt.At(i).Type()}
+					}
+					if len(tv.Vs) > 0 {
+						extra["result"] = TV{tv.Vs[0], tt.At(0).Type()}
+					}
+				}
+			} else if t := e.Info.TypeOf(call); t != nil && v != nil {
+				extra["result"] = TV{v, t}
+				extra["ret0"] = TV{v, t}
+			}
+			e.C.runAts(e, st, "call "+ord, extra)
 			e.C.specAt = saved
 		}
 	}
@@ -541,6 +550,10 @@ func (e *Env) resultFresh(call *ast.CallExpr, st *State, cl callee) Value {
 
 func (c *FCtx) contractFor(cl callee) *Contract {
 	ct := c.contractFor0(cl)
+	if c.AbsKeys && ct != nil && ct.Kind == "func" && ct.Flags["abstract"] == "" && ct.Flags["trusted"] == "" {
+		// a byte-level contract cannot be read where keys are abstracted: the callee is summarised by its effects
+		return nil
+	}
 	if !c.LockSweep && ct != nil && c.PropFilter != "" {
 		ct = propView(ct, c.PropFilter)
 	}
@@ -1245,3 +1258,11 @@ func (c *FCtx) bytesOf(st *State, sl *SliceV) *Term {
 }
 
 var _ = big.NewInt
+
+// assumeDef records a definitional fact about a fresh symbol (an array built by append, ...): it constrains only
+// that symbol and is satisfiable in every state, so it holds on every path and is given to every later obligation
+// directly (not folded into the branch condition it was created under).
+func (c *FCtx) assumeDef(st *State, t *Term) {
+	st.assume(t)
+	c.Globals = append(c.Globals, t)
+}
